@@ -143,7 +143,12 @@ def _run_function(c, seen):
     # regressor wrapper: trained on f(y), predicts f^-1 of what the regressor predicts
     local = PLinReg() if ch.boolean("w", 0.5, "local") else PTreeReg(max_depth=2, random_state=0)
     tt = TransformedTargetRegressor2(regressor=local, transformer=name)
-    ok, r = U.sut(c, "tt.fit", tt.fit, X, y)
+    w = numpy.round(rs.rand(n) + 0.5, 3) if ch.boolean("w", 0.5, "weights") else None
+    if w is None:
+        ok, r = U.sut(c, "tt.fit", tt.fit, X, y)
+    else:
+        c.probe("regressor_with_sample_weight")
+        ok, r = U.sut(c, "tt.fit", tt.fit, X, y, sample_weight=w)
     if not ok:
         _viol(c, seen, "raised", ("regressor.fit", name, type(r).__name__), "TransformedTargetRegressor2.fit raised %s" % U.short_exc(r))
         return
@@ -151,7 +156,9 @@ def _run_function(c, seen):
         _viol(c, seen, "fit-returns-self", ("regressor",), "fit did not return the estimator")
     reg = tt.regressor_
     if not hasattr(reg, "rec_y_") or not numpy.allclose(reg.rec_y_, f(y), rtol=1e-12) or not numpy.array_equal(reg.rec_X_, X):
-        _viol(c, seen, "regressor-training", (name,), "the inner regressor was not trained on (X, %s(y))" % name)
+        _viol(c, seen, "regressor-training", (name, "weighted" if w is not None else "unweighted"), "the inner regressor was not trained on (X, %s(y))" % name)
+    elif (w is None) != (reg.rec_w_ is None) or (w is not None and not numpy.array_equal(reg.rec_w_, w)):
+        _viol(c, seen, "regressor-training", (name, "weights"), "the inner regressor did not receive the caller's sample weights")
     Xq = numpy.vstack([X[:3], rs.randn(3, d) * 0.5])
     ok, p = U.sut(c, "tt.predict", tt.predict, Xq)
     if not ok:
